@@ -31,6 +31,9 @@ def ob(prop, name, harness, what, fns, pkg="cozy-chess", tier="quick", timeout=9
 
 
 T = "cozy-chess-types"
+# Board-level harnesses: CBMC's pointer-validity checks and Kani's per-assertion reachability covers are
+# switched off (safe Rust only; panics, overflow, bounds and unwinding checks stay on) - 2-3x faster
+BF = ("--no-assertion-reach-checks", "--no-memory-safety-checks")
 BB = "bitboard::verif_bitboard::"
 
 # ------------------------------------------------------------------------------------------- C18
@@ -134,27 +137,38 @@ ob("C10", "O-C10.observers", ZB + "c10_observers", "hash() returns the stored ha
 ob("C10", "O-C10.contract-stubs", ZB + "c10_contract_stubs_faithful", "the contract stubs used by board-level hash obligations have exactly the field effect of the real writers",
    ["ZobristBoard::xor_square", "ZobristBoard::set_castle_right", "ZobristBoard::set_en_passant", "ZobristBoard::toggle_side_to_move"], timeout=900)
 ob("C10", "O-C10.null", "board::verif_board::c10_null_hash", "after null_move the accumulated key toggles turn the feature set of the position into the feature set of the result (hash stays the position's hash)",
-   ["Board::null_move"], timeout=1800, cut=True)
+   ["Board::null_move"], timeout=1800, cut=True, flags=BF)
 ob("C10", "O-C10.board_is_equal", ZB + "c10_board_is_equal", "board_is_equal compares exactly placement, side to move and castling rights",
    ["ZobristBoard::board_is_equal"], timeout=900)
 
 # ------------------------------------------------------------------------------------------- C14
 BD = "board::verif_board::"
 ob("C14", "O-C14.null", BD + "c14_null_move", "null_move on every accepted board: None iff in check; otherwise every field == spec_null, checkers empty, pins and hash equal those of a fresh board of the position, result accepted (loop-invariant VCs for the pin loop)",
-   ["Board::null_move", "ZobristBoard::toggle_side_to_move", "ZobristBoard::set_en_passant", "Board::king"], timeout=1800, cut=True, expect_covers=2)
+   ["Board::null_move", "ZobristBoard::toggle_side_to_move", "ZobristBoard::set_en_passant", "Board::king"], timeout=1800, cut=True, expect_covers=2, flags=BF)
 
 # ------------------------------------------------------------------------------------------- play family
 KINDS = ["pawn", "knight", "bishop", "rook", "queen", "king", "castle"]
 PLAYFNS = ["Board::play_unchecked", "Board::piece_on", "Board::king", "ZobristBoard::xor_square", "ZobristBoard::set_castle_right", "ZobristBoard::set_en_passant", "ZobristBoard::toggle_side_to_move"]
 for k in KINDS:
     ob("C02", "O-C02.play." + k, BD + "c02_play_" + k, "play_unchecked of any legal %s move on any accepted board: every position field (8 bitboards, side, 4 rights, EP file, both clocks) == successor prescribed by the rules" % k,
-       PLAYFNS, timeout=2400, cut=True)
+       PLAYFNS, timeout=2400, cut=True, flags=BF)
     ob("C03", "O-C03.play." + k, BD + "c03_play_" + k, "after play_unchecked of any legal %s move: checkers and pins == their definition on the resulting position (loop-invariant VCs for the slider loop)" % k,
-       PLAYFNS, timeout=2400, cut=True)
+       PLAYFNS, timeout=2400, cut=True, flags=BF)
     ob("C06", "O-C06.inv-preserved.play." + k, BD + "c06_play_" + k, "acceptance is inductive: the rule-prescribed successor of an accepted position after a legal %s move is accepted" % k,
-       ["(oracle) spec_accept", "(oracle) spec_play", "(oracle) spec_legal"], timeout=2400)
+       ["(oracle) spec_accept", "(oracle) spec_play", "(oracle) spec_legal"], timeout=2400, flags=BF)
     ob("C10", "O-C10.play." + k, BD + "c10_play_" + k, "after play_unchecked of any legal %s move the accumulated key toggles turn the feature set of the position into that of the successor" % k,
-       PLAYFNS, timeout=2400, cut=True)
+       PLAYFNS, timeout=2400, cut=True, flags=BF)
+
+# ------------------------------------------------------------------------------------------- C01 / C16
+MG = "board::movegen::verif_movegen::"
+GENFNS = ["Board::generate_moves_for", "Board::add_all_legals", "Board::add_pawn_legals", "Board::add_knight_legals", "Board::add_slider_legals", "Board::add_king_legals", "Board::king_safe_on", "Board::can_castle", "Board::target_squares"]
+for k in ["pawn", "knight", "bishop", "rook", "queen", "king", "none"]:
+    for m, mt in [(0, "not in check"), (1, "single check"), (2, "double check")]:
+        for prop in ("C01", "C16"):
+            ob(prop, "O-%s.gen.%s.%d" % (prop, k, m), MG + "c01_gen_%s_%d" % (k, m),
+               "generate_moves_for(mask, listener) on every accepted board (%s), query origin holding %s: the query move is delivered exactly once iff it is legal by the rules and its origin is in the mask; batches non-empty, origin in mask, piece correct; no call after abort, return value == aborted; <= 1 ordinary + 1 en-passant batch per origin" % (mt, "an own " + k if k != "none" else "no own piece"),
+               GENFNS, timeout=3600, cut=True, flags=BF,
+               tier="quick" if (prop == "C01" or (k, m) in (("pawn", 0), ("rook", 1), ("king", 0), ("none", 2))) else "thorough")
 
 
 def for_property(prop, tier):
